@@ -194,6 +194,10 @@ inductive Op
   | save
   /-- read-only public queries (len, triangleset(), scene.objects(...)): no modelled state changes -/
   | query
+  /-- `doc.handleError(e)` inside an `except` block (what `CImage.data` and the loaders do): always records, re-raises unless masked -/
+  | handle (e : ErrClass)
+  /-- `doc.ignoreErrors(None)` -/
+  | clearIgnore
 deriving DecidableEq, Repr
 
 /-- one library loader: the children in document order whose tag is in the document's
@@ -248,6 +252,11 @@ def apply : Op → FrameOp DocState Out
     if d.live then (d, .saved d.ns) else (d, .nodoc)
   | .query, d =>
     if d.live then (d, .ok) else (d, .nodoc)
+  | .handle e, d =>
+    if !d.live then (d, .nodoc)
+    else ({ d with errors := d.errors ++ [e] }, if masked d.mask e then .ok else .fail e)
+  | .clearIgnore, d =>
+    if d.live then ({ d with mask := [] }, .ok) else (d, .nodoc)
 
 /-- a concrete schedule: (document, operation) pairs -/
 abbrev Sched := List (Nat × Op)
